@@ -61,9 +61,11 @@ theorem decodeLoop_frame {app : App} (c : Int) : ∀ (n : Nat) (s s' : State),
         · split at h
           · cases h
             frame_rfl
-          · have f := ih _ _ h
-            refine Frame.trans ?_ f
-            frame_rfl
+          · split at h
+            · cases h; frame_rfl
+            · have f := ih _ _ h
+              refine Frame.trans ?_ f
+              frame_rfl
 
 theorem decodeCycle_frame {app : App} {s s' : State} (h : decodeCycle app s = .ok s') : Frame s s' := by
   unfold decodeCycle at h
